@@ -171,7 +171,15 @@ func c11run(c *Sexp, threads int) *Sexp {
 			devnull, _ := os.OpenFile(os.DevNull, os.O_WRONLY, 0)
 			old := os.Stderr
 			os.Stderr = devnull
-			_, e := support.TBE(ref, ch, threads, false, true, true, 0.3, logf, nil)
+			// which tables: both (default), or only one of them
+			avg, perbranch := true, true
+			switch c.Str("tables") {
+			case "taxa":
+				perbranch = false
+			case "branches":
+				avg = false
+			}
+			_, e := support.TBE(ref, ch, threads, false, avg, perbranch, 0.3, logf, nil)
 			os.Stderr = old
 			devnull.Close()
 			ferr = errStr(e)
